@@ -557,6 +557,41 @@ func (c *c01) kids(doc []byte, t byte, items []PItem) {
 			}
 			kr.St = "ok"
 		}()
+		if target.Type() == thrift.MAP {
+			// the pairs of a map as (key node, value node): the key node's own bytes give the path item
+			func() {
+				kr := KidsRes{API: "N.ForeachKV" + sfx, Kids: []Kid{}}
+				defer func() {
+					if e := recover(); e != nil {
+						kr.St = "panic"
+						kr.Msg = fmt.Sprint(e)
+						kr.Kids = []Kid{}
+					}
+					res = append(res, kr)
+				}()
+				err := target.ForeachKV(func(key generic.Node, val generic.Node) bool {
+					var p generic.Path
+					switch kt := key.Type(); {
+					case kt == thrift.STRING:
+						s, _ := key.String()
+						p = generic.NewPathStrKey(s)
+					case kt.IsInt():
+						i, _ := key.Int()
+						p = generic.NewPathIntKey(i)
+					default:
+						p = generic.NewPathBinKey(key.Raw())
+					}
+					kr.Kids = append(kr.Kids, kidOf(doc, p, val))
+					return true
+				}, opts)
+				if err != nil {
+					kr.St = "err"
+					kr.Kids = []Kid{}
+					return
+				}
+				kr.St = "ok"
+			}()
+		}
 	}
 	c.out.Emit(map[string]interface{}{"ev": "Kids", "path": items, "res": res})
 }
@@ -692,6 +727,43 @@ func (c *c01) iface(doc []byte, t byte, items []PItem) {
 			ir.St = "ok"
 			ir.D = dumpIface(x)
 		}()
+		// the conversion that names its result type: List for lists and sets, StrMap / IntMap / InterfaceMap by the map's key type
+		var conv func(*generic.Options) (interface{}, error)
+		cname := ""
+		switch tt := target.Type(); {
+		case tt == thrift.LIST || tt == thrift.SET:
+			cname, conv = "N.List", func(op *generic.Options) (interface{}, error) { return target.List(op) }
+		case tt == thrift.MAP && target.KeyType() == thrift.STRING:
+			cname, conv = "N.StrMap", func(op *generic.Options) (interface{}, error) { return target.StrMap(op) }
+		case tt == thrift.MAP && target.KeyType().IsInt():
+			cname, conv = "N.IntMap", func(op *generic.Options) (interface{}, error) { return target.IntMap(op) }
+		case tt == thrift.MAP:
+			cname, conv = "N.InterfaceMap", func(op *generic.Options) (interface{}, error) { return target.InterfaceMap(op) }
+		}
+		if conv != nil {
+			func() {
+				mode := "int"
+				if o.byid {
+					mode = "id"
+				}
+				ir := IfaceRes{API: cname + name[len("N.Interface"):], Byid: mode, Bin: o.bin, D: dumpIface(nil)}
+				defer func() {
+					if e := recover(); e != nil {
+						ir.St = "panic"
+						ir.Msg = fmt.Sprint(e)
+						ir.D = dumpIface(nil)
+					}
+					res = append(res, ir)
+				}()
+				x, err := conv(&generic.Options{MapStructById: o.byid, CastStringAsBinary: o.bin, UseNativeSkip: o.native})
+				if err != nil {
+					ir.St = "err"
+					return
+				}
+				ir.St = "ok"
+				ir.D = dumpIface(x)
+			}()
+		}
 	}
 	c.out.Emit(map[string]interface{}{"ev": "Iface", "path": items, "res": res})
 }
